@@ -31,6 +31,11 @@ func targetPanicMsg(msg string) targetPanic {
 }
 
 func (i *interpreter) noteStore(p *value) {
+	if i.base.frozenCells != nil {
+		if _, bad := i.base.frozenCells[p]; bad {
+			panic(pathAbort{kind: abortAssertFail, msg: "store into a memoised (shared) object at " + i.whereAmI()})
+		}
+	}
 	if i.frozenLocal != nil {
 		if _, bad := i.frozenLocal[p]; bad {
 			panic(pathAbort{kind: abortAssertFail, msg: "store into frozen (shared) object at " + i.whereAmI()})
@@ -39,6 +44,11 @@ func (i *interpreter) noteStore(p *value) {
 }
 
 func (i *interpreter) noteMapWrite(m *omap) {
+	if i.base.frozenMaps != nil {
+		if _, bad := i.base.frozenMaps[m]; bad {
+			panic(pathAbort{kind: abortAssertFail, msg: "write to a memoised (shared) map at " + i.whereAmI()})
+		}
+	}
 	if i.frozenMaps != nil {
 		if _, bad := i.frozenMaps[m]; bad {
 			panic(pathAbort{kind: abortAssertFail, msg: "write to a frozen (shared) map at " + i.whereAmI()})
@@ -49,6 +59,12 @@ func (i *interpreter) noteMapWrite(m *omap) {
 // noteAppend traps an append that would write into the spare capacity of a
 // frozen slice's backing array.
 func (i *interpreter) noteAppend(s []value) {
+	if i.base.frozenCells != nil && len(s) < cap(s) {
+		full := s[:cap(s)]
+		if _, bad := i.base.frozenCells[&full[len(s)]]; bad {
+			panic(pathAbort{kind: abortAssertFail, msg: "append into the spare capacity of a memoised (shared) slice at " + i.whereAmI()})
+		}
+	}
 	if i.frozenLocal != nil && len(s) < cap(s) {
 		full := s[:cap(s)]
 		if _, bad := i.frozenLocal[&full[len(s)]]; bad {
@@ -156,6 +172,27 @@ func init() {
 			panic(pathAbort{kind: abortAssertFail, msg: "vUnreachable: " + a[0].(string)})
 		},
 		"vSymbolic": func(fr *frame, a []value) value { return true },
+		// vMemo(key, fn): the result of the concrete, deterministic set-up fn
+		// is computed once per worker and shared by all paths.  Everything
+		// reachable from it is frozen: a later store into it ends the path.
+		"vMemo": func(fr *frame, a []value) value {
+			key := a[0].(string)
+			base := fr.i.base
+			if v, ok := base.memo[key]; ok {
+				return v
+			}
+			before, vars := len(fr.i.ps.trail), len(fr.i.ps.varTerm)
+			r := call(fr.i, fr, token.NoPos, a[1], nil)
+			if len(fr.i.ps.trail) != before || len(fr.i.ps.varTerm) != vars {
+				panic(unsupported("vMemo: the memoised set-up made symbolic decisions (key " + key + ")"))
+			}
+			if base.memo == nil {
+				base.memo = map[string]value{}
+			}
+			base.memo[key] = r
+			fr.i.freezeInto(r, &base.frozenCells, &base.frozenMaps)
+			return r
+		},
 		// vNumText: an opaque (symbolic) numeric token text; strconv.Parse*
 		// on it is an uninterpreted function with the documented contract.
 		"vNumText": func(fr *frame, a []value) value {
@@ -837,7 +874,8 @@ func ext۰strconv۰Itoa(fr *frame, args []value) value {
 	if n, ok := args[0].(int); ok {
 		return strconv.Itoa(n)
 	}
-	panic(unsupported("strconv.Itoa on a symbolic int"))
+	// symbolic: fork on the value (bounded by the concretisation fan-out)
+	return strconv.Itoa(int(fr.i.concretize(args[0], nil)))
 }
 
 func ext۰strconv۰Quote(fr *frame, args []value) value {
